@@ -504,6 +504,8 @@ func (c *client) receive(r io.Reader) (err error) {
 		return ServerError{fmt.Errorf("got a response with an unexpected call ID: %d", callID)}
 	}
 	if err := c.inFlightDown(); err != nil {
+		// we unregistered the rpc, so nobody else will complete it
+		returnResult(rpc, nil, ServerError{err})
 		return ServerError{err}
 	}
 
